@@ -1,15 +1,41 @@
 import MosnVerif.Drive.Downstream
 import MosnVerif.Drive.DownstreamMC
+import MosnVerif.Model.DownstreamSpec
+/-!
+C03 driver.  `A` = the model's trace, ledger and done flag equal the implementation's, token for token.
+`Spec` (about the IMPLEMENTATION's output, written against the declarative sender automaton of DownstreamSpec and the
+case only — no regenerated definition is used):
+  1. the downstream sender calls are accepted by the sender automaton (headers once and first, one end of stream, at most one
+     reset, nothing after either)                                                          — theorem `sender_once`
+  2. the clean-up body ran exactly once iff the exchange is done, never twice               — theorem `clean_once`
+  3. a finished exchange has a classified outcome (complete reply / reset / client gone / one-way), never silence; an
+     unfinished started exchange is two-way and has delivered no terminal event yet         — theorem `outcome_total`
+  4. once the global timeout fired after the start, the exchange is finished                — theorem `timeout_completes`
+A `mc <cfg> <amb> <limit>` case runs the explicit-state exploration of the model (every schedule up to the state limit)
+against the executable invariant; it has no implementation side.
+-/
 namespace MosnVerif.Drive.C03
 open MosnVerif.Drive MosnVerif.Drive.Downstream MosnVerif.Model.Downstream
+
+def spec (cs : Case) (i : Impl) : Bool :=
+  match implTrace i with
+  | none => false
+  | some t =>
+    let started := cs.sched.any (fun l => match l with | .work => true | _ => false)
+    let terminal := t.any isEos || t.any isReset
+    senderOk t
+    && nLog t == (if i.done then 1 else 0)
+    && (!i.done || terminal || cs.cfg.oneway || cs.sched.any isClientGone)
+    && (i.done || !started || (!cs.cfg.oneway && !terminal))
+    && (!timeoutAfterStart cs.sched || i.done)
 
 def run (caseToks impl : List String) : String :=
   if caseToks.head? == some "mc" then DownstreamMC.run caseToks else
   match parseCase caseToks, parseImpl impl with
-  | some cs, some _ =>
+  | some cs, some i =>
     let out := render (modelOut cs)
     let agree := out == joinWith " " impl
-    s!"{if agree then "A" else "D"} S {out}"
+    s!"{if agree then "A" else "D"} {if spec cs i then "S" else "V"} {out}"
   | _, _ => "E E bad-case"
 
 end MosnVerif.Drive.C03
